@@ -381,7 +381,7 @@ func (w *world) vis(who string) string {
 		scanQ, delQ = `query { Author { _docID } Book { _docID } Note { _docID } }`, `query { Author(showDeleted: true) { _docID _deleted } Book(showDeleted: true) { _docID _deleted } Note(showDeleted: true) { _docID _deleted } }`
 	}
 	scan := w.labelsIn(w.gqlT(e, who, scanQ), "")
-	var index, byid, tt []string
+	var index, byid, tt, commitcid []string
 	for _, l := range w.order {
 		d := w.docs[l]
 		if d.col == "Author" {
@@ -404,11 +404,17 @@ func (w *world) vis(who string) string {
 			if strings.Contains(res, d.docID) {
 				tt = append(tt, l)
 			}
+			// the commit history entered at a commit named by its cid (a cid the requester may have learned elsewhere)
+			res = w.gqlT(e, who, fmt.Sprintf(`query { commits(cid: "%s", depth: 3) { cid docID fieldName delta } }`, heads[0].Cid))
+			if strings.Contains(res, d.docID) {
+				commitcid = append(commitcid, l)
+			}
 		}
 	}
 	sort.Strings(index)
 	sort.Strings(byid)
 	sort.Strings(tt)
+	sort.Strings(commitcid)
 	// joins
 	var join []string
 	var m map[string][]map[string]any
@@ -435,7 +441,7 @@ func (w *world) vis(who string) string {
 	count = strings.NewReplacer(`{"_count":`, "", "}", "+").Replace(count)
 	commits := w.labelsIn(w.gqlT(e, who, `query { commits { docID fieldName } }`), "")
 	deleted := w.labelsIn(w.gqlT(e, who, delQ), "")
-	res := fmt.Sprintf("scan=%s index=%s byid=%s tt=%s join=%s count=%s commits=%s withdeleted=%s", csv(scan), csv(index), csv(byid), csv(tt), csv(join), count, csv(commits), csv(deleted))
+	res := fmt.Sprintf("scan=%s index=%s byid=%s tt=%s join=%s count=%s commits=%s commitcid=%s withdeleted=%s", csv(scan), csv(index), csv(byid), csv(tt), csv(join), count, csv(commits), csv(commitcid), csv(deleted))
 	if w.note {
 		// time travel to the head commit of the branchable collection's own DAG: the state of all its documents
 		var cm map[string][]map[string]any
@@ -486,7 +492,7 @@ func (w *world) visOracle(who, res string) {
 				d := w.docs[l]
 				if d != nil && !d.canRead(who) {
 					tag := "unreadable-document-visible"
-					if k == "commits" {
+					if k == "commits" || k == "commitcid" {
 						tag = "commits-without-access-control"
 					}
 					w.out.Oracle(w.out.Lines, fmt.Sprintf("[%s] case %d: requester %s lacks read permission on %s but path %s yields it", tag, w.caseID, who, l, k))
